@@ -619,3 +619,43 @@ Fixpoint ops_run (kd : kind) (n w : nat) (fs : fsys) (h : list hop) : list runou
   | [] => []
   | op :: h' => let o := hop_apply kd n w fs op in o :: ops_run kd n w (out_fs o) h'
   end.
+
+(* ======================================================================== *)
+(* File names and probe versions                                                *)
+(* ======================================================================== *)
+(* The lf output is named after the file given: name.replace("ap", "lf") (Python str.replace: every
+   non-overlapping occurrence, left to right).  Names are lists of character codes. *)
+Fixpoint lf_name (s : list Z) : list Z :=
+  match s with
+  | [] => []
+  | a :: t =>
+      match t with
+      | [] => [a]
+      | p :: r => if ((a =? 97) && (p =? 112))%Z then 108%Z :: 102%Z :: lf_name r else a :: lf_name t
+      end
+  end.
+Fixpoint has_ap (s : list Z) : bool :=
+  match s with
+  | [] => false
+  | a :: t =>
+      match t with
+      | [] => false
+      | p :: r => ((a =? 97) && (p =? 112))%Z || has_ap t
+      end
+  end.
+
+(* spikeglx._get_neuropixel_version_from_meta: what process() dispatches on *)
+Inductive version := V3A | V3B1 | V3B2 | VNP21 | VNP24 | VNPultra.
+Definition kind_of_version (v : version) : kind :=
+  match v with
+  | VNP24 => NP24
+  | VNP21 => NP21
+  | V3A | V3B1 | V3B2 | VNPultra => NP1      (* process(): neither NP2.1 nor NP2.4 -> -1, nothing touched *)
+  end.
+
+(* a non-NP2 recording with its hardware lf file next to it *)
+Definition init_fs_hwlf : fsys :=
+  fun p => match p with
+           | PFile Orig FMeta | PFile Orig FBin | PFile Lf21 FBin | PFile Lf21 FMeta => Complete
+           | _ => Absent
+           end.
